@@ -178,8 +178,35 @@ func vtsValuelessBranchPoint(pk []byte, m map[string][]byte) bool {
 	return len(next) >= 2
 }
 
+// vtsKeyEndsAtBranchStart: k is absent, at least two stored keys extend it and they share more than k:
+// walking k ends exactly where a branch with a non-empty partial key begins.
+func vtsKeyEndsAtBranchStart(k []byte, m map[string][]byte) bool {
+	if _, ok := m[string(k)]; ok {
+		return false
+	}
+	p := vtsNibbles(k)
+	var ext [][]byte
+	for key := range m {
+		n := vtsNibbles([]byte(key))
+		if len(n) > len(p) && bytes.Equal(n[:len(p)], p) {
+			ext = append(ext, n)
+		}
+	}
+	if len(ext) < 2 {
+		return false
+	}
+	c := ext[0][len(p)]
+	for _, n := range ext {
+		if n[len(p)] != c {
+			return false
+		}
+	}
+	return true
+}
+
 // vtsFeatures joins the input-class features that separate the causes of disagreement:
 //   long-key  a key of 32 bytes or more was passed to Put/Delete in this behaviour
+//   delete-key-ends-at-branch-start   Delete(k) of an absent k that ends where a branch with a non-empty partial key begins
 //   wac       the working instance was written after it had been committed / reopened on a non-empty root
 //             (its nodes were loaded from the database)
 func vtsFeatures(fs ...string) string {
@@ -241,6 +268,7 @@ func TestVerifTrieStoreTrieDB(t *testing.T) {
 		}
 		lastRoot := runtime.BlakeTwo256{}.Hash([]byte{0})
 		longKey, wac, baseNonEmpty := "", "", false
+		prevWork := map[string][]byte{}
 		var prefix []json.RawMessage
 		for si, s := range steps {
 			prefix = append(prefix, b.Steps[si])
@@ -257,6 +285,10 @@ func TestVerifTrieStoreTrieDB(t *testing.T) {
 				failed = true
 			}
 			res.Case(o.Op, fmt.Sprintf("%x|%d|%d|%v", k, len(v), len(work), s.Obs.V1))
+			dk := ""
+			if o.Op == "Delete" && vtsKeyEndsAtBranchStart(k, prevWork) {
+				dk = "delete-key-ends-at-branch-start"
+			}
 			// reads of every probe key through instance x against map m
 			reads := func(x *vtdTrie, m map[string][]byte, who string) {
 				for _, pk := range probe {
@@ -269,7 +301,7 @@ func TestVerifTrieStoreTrieDB(t *testing.T) {
 						if strings.Contains(pm, "unreachable") && vtsValuelessBranchPoint(pk, m) {
 							vlb = "absent-key-at-valueless-branch"
 						}
-						fail("panic", fmt.Sprintf("no panic key=%x", pk), pm, who+"/Get/"+vtsFeatures(longKey, wac, vlb)+"/panic")
+						fail("panic", fmt.Sprintf("no panic key=%x", pk), pm, who+"/Get/"+vtsFeatures(longKey, wac, dk, vlb)+"/panic")
 						return
 					}
 					if present != (got != nil) {
@@ -277,11 +309,11 @@ func TestVerifTrieStoreTrieDB(t *testing.T) {
 						if present {
 							kind = "present-key-read-as-absent"
 						}
-						fail("found", fmt.Sprintf("%v key=%x", present, pk), fmt.Sprintf("%v (%x)", got != nil, got), who+"/Get/"+vtsFeatures(longKey, wac)+"/"+kind)
+						fail("found", fmt.Sprintf("%v key=%x", present, pk), fmt.Sprintf("%v (%x)", got != nil, got), who+"/Get/"+vtsFeatures(longKey, wac, dk)+"/"+kind)
 						return
 					}
 					if present && !bytes.Equal(got, exp) {
-						fail("value", fmt.Sprintf("key=%x %x", pk, exp), vHex(got), who+"/Get/"+vtsFeatures(longKey, wac)+"/wrong-value")
+						fail("value", fmt.Sprintf("key=%x %x", pk, exp), vHex(got), who+"/Get/"+vtsFeatures(longKey, wac, dk)+"/wrong-value")
 						return
 					}
 				}
@@ -313,7 +345,7 @@ func TestVerifTrieStoreTrieDB(t *testing.T) {
 					}
 				case "Delete":
 					if err := tr.Delete(kk); err != nil {
-						fail("err", "nil", err.Error(), "Delete/"+vtsFeatures(longKey, wac)+"/"+errClass("error", err.Error()))
+						fail("err", "nil", err.Error(), "Delete/"+vtsFeatures(longKey, wac, dk)+"/"+errClass("error", err.Error()))
 					}
 				case "SetVersion":
 					tr.SetVersion(trie.V1)
@@ -357,7 +389,7 @@ func TestVerifTrieStoreTrieDB(t *testing.T) {
 				}
 			})
 			if pm != "" {
-				fail("panic", "no panic", pm, o.Op+"/"+vtsFeatures(longKey, wac)+"/"+errClass("panic", pm))
+				fail("panic", "no panic", pm, o.Op+"/"+vtsFeatures(longKey, wac, dk)+"/"+errClass("panic", pm))
 			}
 			if !bytes.Equal(kk, k) && !failed {
 				fail("key", vHex(k), vHex(kk), o.Op+"/"+vtsFeatures(longKey, wac)+"/caller-key-overwritten")
@@ -365,6 +397,7 @@ func TestVerifTrieStoreTrieDB(t *testing.T) {
 			if !failed {
 				reads(tr, work, "working-instance")
 			}
+			prevWork = work
 			if failed {
 				// re-synchronise with the specification: committed state in a new database, then the working state
 				totalPuts += db.puts
